@@ -161,7 +161,7 @@ def zeros(n):
     if n == 1: return Unit(BitVecVal(0, 8))
     return Concat(*[Unit(BitVecVal(0, 8))] * n)
 
-HOOKS = {'extract': None, 'len': None}
+HOOKS = {'extract': None, 'len': None, 'discriminant': None, 'field': None}
 CUR_STATE = [None]
 
 class Panic:
@@ -172,11 +172,12 @@ class State:
     def __init__(self):
         self.store, self.pc, self.log, self.stack = {}, [], [], []
         self.facts, self.dotfree = [], []
-        self.known_len = {}
+        self.known_len = {}; self.mapdefs = []; self.objdefs = []
         self.next_cell = [0]
     def fork(self):
         s = State(); s.store = dict(self.store); s.pc = list(self.pc); s.log = list(self.log)
         s.facts = list(self.facts); s.dotfree = self.dotfree; s.known_len = dict(self.known_len)
+        s.mapdefs = list(self.mapdefs); s.objdefs = list(self.objdefs)
         s.stack = [dict(fr, locals=dict(fr['locals'])) for fr in self.stack]; s.next_cell = self.next_cell
         return s
     def new_cell(self, v=None):
@@ -186,11 +187,16 @@ def get_path(v, path):
     for step in path:
         if v is None: raise Unsupported('read of uninitialised place')
         if step[0] == 'f':
+            if v[0] == 'symdc':
+                r = HOOKS['field'](v[1], v[2], step[1])
+                if r is None: raise Unsupported('field of symbolic variant ' + v[2])
+                v = r; continue
             if v[0] == 'tup': v = v[1][step[1]]
             elif v[0] == 'adt': v = v[3][step[1]]
             elif v[0] == 'closure': v = v[2][step[1]]
             else: raise Unsupported('field of ' + str(v)[:60])
         elif step[0] == 'dc':
+            if is_expr(v) and HOOKS['field']: v = ('symdc', v, step[1]); continue
             if v[0] != 'adt' or v[2] != step[1]: raise Unsupported('downcast %s of %s' % (step[1], str(v)[:60]))
         elif step[0] == 'slice':
             v = HOOKS['extract'](CUR_STATE[0], v, step[1], step[2]) if HOOKS['extract'] else simplify(Extract(v, step[1], step[2]))
@@ -290,6 +296,7 @@ class Exec:
         self.stats = {'paths': 0, 'inlined': set(), 'contracts': set(), 'feas_checks': 0, 'bounds': {}}
         self.timeout = solver_timeout; self.quick_ms = 300; self.tolerate_unsupported = True
         self.static_names = allocs.get('__static_names__', {})
+        self.ih = {}; self.world_fields = None
 
     # --- function lookup: unification of the call's types with the impl header read from the source
     def find(self, callee):
@@ -318,6 +325,24 @@ class Exec:
             cands = ex_ if ex_ else [(f, b) for e, f, b in cands]
             if not cands:   # default method of a crate trait
                 cands = [(f, {'Self': m.group(1)}) for f in self.fns if not f.impl and f.name.endswith('::' + tr + '::' + meth)]
+            if not cands and selfty[0] == 'path':   # #[derive(..)]-generated impl: the span is the derive attribute, select by the type the signature mentions
+                for f in self.fns:
+                    if f.method != meth or not f.impl or f.impl[0] != '<derive>': continue
+                    sm = re.match(r'\((.*)\) -> (.*)$', f.sig, re.S)
+                    if not sm: continue
+                    tys = [parse_ty(sm.group(2))] + [parse_ty(x.split(': ', 1)[1]) for x in split_top(sm.group(1)) if ': ' in x]
+                    tys = [t[1] if t[0] == 'ref' else t for t in tys]
+                    if trargs and len(tys) > 1:
+                        want = trargs[0][1] if trargs[0][0] == 'path' else None
+                        got = tys[1][1] if tys[1][0] == 'path' else None
+                        if want != got: continue
+                        if not (tys[0][0] == 'path' and tys[0][1] == selfty[1]): continue
+                    if any(t[0] == 'path' and t[1] == selfty[1] for t in tys[:2]):
+                        bind = {}
+                        t0 = next(t for t in tys if t[0] == 'path' and t[1] == selfty[1])
+                        gens = [x[1] for x in t0[2] if x[0] == 'path' and not x[2] and x[1][0].isupper() and x[1] not in ('V1', 'V2', 'V3', 'V4', 'Local', 'Public')]
+                        unify(t0, selfty, gens, bind)
+                        cands.append((f, bind))
         else:
             m = re.match(r'(.*)::(\w+)(?:::<(.*)>)?$', c)
             if not m: return None
@@ -449,7 +474,10 @@ class Exec:
         m = re.match(r'discriminant\((.*)\)$', s)
         if m:
             v = self.read(st, fr, parse_place(m.group(1)))
-            if v[0] != 'adt': raise Unsupported('discriminant of ' + str(v)[:60])
+            if is_expr(v) and HOOKS['discriminant']:
+                d = HOOKS['discriminant'](v)
+                if d is not None: return d
+            if not isinstance(v, tuple) or v[0] != 'adt': raise Unsupported('discriminant of ' + str(v)[:60])
             return ('variant', v[1], v[2])
         m = re.match(r'PtrMetadata\((.*)\)$', s)
         if m:
@@ -690,6 +718,11 @@ class Exec:
                 return self.call(st, fr, alt, args, dest, nxt)
         if r is None: raise Unsupported('no contract and no MIR for callee: ' + callee)
         f, bind = r
+        if f.method in self.ih and not f.impl:
+            # induction hypothesis for a recursive crate function (its inductive step is an obligation of its own)
+            self.stats['contracts'].add('induction hypothesis for ' + f.method)
+            self.write(st, fr, dest, self.ih[f.method](*args)); fr['bb'] = nxt
+            return [('cont', st)]
         self.stats['inlined'].add(f.name)
         if len(st.stack) > 60: raise Unsupported('call depth > 60 at ' + callee)
         new = {'fn': f, 'locals': {}, 'bb': 'bb0', 'ret_to': (dest, nxt), 'subst': self.bind_generics(f, callee, bind)}
